@@ -1220,7 +1220,8 @@ theorem awaitQueue_spec {s : State} (I : Inv s) (hact : s.active = true) {i : Na
     ∧ (∀ k, (resumeAll (awaitQueue s i o me) [popValue s o]).obj k
         = if k = i then some { o with cf := 0 } else s.obj k)
     ∧ (resumeAll (awaitQueue s i o me) [popValue s o]).active = true
-    ∧ (resumeAll (awaitQueue s i o me) [popValue s o]).objs.length = s.objs.length := by
+    ∧ (resumeAll (awaitQueue s i o me) [popValue s o]).objs.length = s.objs.length
+    ∧ (resumeAll (awaitQueue s i o me) [popValue s o]).given = s.given ++ awaitExtra s o me := by
   obtain ⟨H1, O1, h1, h2, hobj1⟩ := dec_spec I.heap I.own hi hc
   have hrest : handles (setObj s i (some { o with cf := o.cf - 2 })) i = handlesOf s { o with cf := o.cf - 2 } := by
     simp only [handles, hobj1 i, if_true]; rfl
@@ -1250,7 +1251,9 @@ theorem awaitQueue_spec {s : State} (I : Inv s) (hact : s.active = true) {i : Na
     rw [resumed_resumeAll, C.quiet.resumed, hXr]
   have ha : (resumeAll Y [popValue s o]).active = true := by
     show Y.active = _; rw [C.quiet.active, hXa, hact]
-  refine ⟨⟨heapOk_of_eq C.heap rfl rfl rfl [popValue s o] rfl, own_of_eq C.own rfl rfl, ?_, ?_⟩, h1, g1, g2, hq, hr, ?_, ha, hlen⟩
+  have hgv : (resumeAll Y [popValue s o]).given = s.given ++ awaitExtra s o me := by
+    show Y.given = _; rw [C.quiet.given, hXg]
+  refine ⟨⟨heapOk_of_eq C.heap rfl rfl rfl [popValue s o] rfl, own_of_eq C.own rfl rfl, ?_, ?_⟩, h1, g1, g2, hq, hr, ?_, ha, hlen, hgv⟩
   · intro hh; rw [ha] at hh; cases hh
   · intro x
     have c := I.conserve x
@@ -1279,7 +1282,9 @@ theorem await_inv {s : State} (I : Inv s) {i : Nat} {o : Obj} (hi : s.obj i = so
   · simp only [hc, if_false]
     by_cases ha : s.active = true
     · simp only [ha, if_true]
-      exact inv_flushUntil (awaitQueue_spec I ha hi hc me).1 me
+      split
+      · exact (awaitQueue_spec I ha hi hc me).1
+      · exact inv_flushUntil (awaitQueue_spec I ha hi hc me).1 me
     · have ha' : s.active = false := by simpa using ha
       simp only [ha', Bool.false_eq_true, if_false]
       have hi' : ({ s with active := true } : State).obj i = some o := hi
@@ -1477,10 +1482,10 @@ theorem step_len {s : State} (I : Inv s) (op : Op) : (step s op).1.objs.length =
         · simp [hc]
         · by_cases ha : s.active = true
           · simp only [hc, ha, if_true, if_false]
-            exact (awaitQueue_spec I ha ho hc me).2.2.2.2.2.2.2.2
+            split <;> exact (awaitQueue_spec I ha ho hc me).2.2.2.2.2.2.2.2.1
           · have ha' : s.active = false := by simpa using ha
             simp only [hc, ha', if_false, Bool.false_eq_true]
-            exact (awaitQueue_spec (inv_active I) rfl (s := { s with active := true }) ho hc me).2.2.2.2.2.2.2.2
+            exact (awaitQueue_spec (inv_active I) rfl (s := { s with active := true }) ho hc me).2.2.2.2.2.2.2.2.1
       · rfl
   | yield me => simp only [step]; split <;> rfl
   | size i => simp only [step]; split <;> rfl
@@ -1736,7 +1741,7 @@ theorem step_value_frame {s : State} (I : Inv s) (op : Op) :
             intro o1 o1' h1 h2; rw [hi] at h1; cases h1; cases h2; exact ⟨rfl, rfl⟩
           by_cases ha : s.active = true
           · simp only [hc, ha, if_true, if_false]
-            exact valFrame_of_slot (some { o with cf := 0 }) (awaitQueue_spec I ha hi hc me).2.2.2.2.2.2.1 hx
+            split <;> exact valFrame_of_slot (some { o with cf := 0 }) (awaitQueue_spec I ha hi hc me).2.2.2.2.2.2.1 hx
           · have ha' : s.active = false := by simpa using ha
             simp only [hc, ha', if_false, Bool.false_eq_true]
             exact valFrame_of_slot (some { o with cf := 0 })
